@@ -303,12 +303,26 @@ def run_check(prop, modname, jobs, tier, seed, level='model_checking', functions
                violations=[], inconclusive=[], errors=[], samples=[], per_job={})
     pending = []
     incomplete = False
+    # thorough tier: a wall budget.  What was explored when it runs out is reported as explored (every
+    # finished path carries its own proof); unfinished jobs are listed and are not part of the claim.
+    budget_s = None
+    if tier == 'thorough':
+        budget_s = float(os.environ.get('VERIF_THOROUGH_BUDGET', '2400'))
+    budget_cut = False
+    finished_jobs = set()
     with ctxmp.Pool(nproc, initializer=_worker_init, initargs=(modname, kf, seed)) as pool:
+        outstanding = {}
+
         def submit(job, prefixes):
+            outstanding[job['id']] = outstanding.get(job['id'], 0) + 1
             pending.append(pool.apply_async(_worker_task, ((job, prefixes, slice_s),)))
         jobmap = {}
         nviol = {}
-        for job in jobs:
+        # kernels first, the bulk of the generated family last (matters when the thorough budget cuts)
+        def rank(j):
+            i = j['id']
+            return 0 if i.startswith(('kernel', 'oer/kernel', 'uper/kernel')) else (2 if i.startswith('g/') or '/g/' in i else 1)
+        for job in sorted(jobs, key=rank):
             jobmap[job['id']] = job
             submit(job, [[]])
         while pending:
@@ -320,6 +334,10 @@ def run_check(prop, modname, jobs, tier, seed, level='model_checking', functions
                     pool.terminate()
                     break
                 continue
+            if budget_s and time.time() - t0 > budget_s:
+                budget_cut = True
+                pool.terminate()
+                break
             for p in done:
                 pending.remove(p)
                 r = p.get()
@@ -354,6 +372,7 @@ def run_check(prop, modname, jobs, tier, seed, level='model_checking', functions
                     agg['notes']['job-stopped-after-violations'] = \
                         agg['notes'].get('job-stopped-after-violations', 0) + 1
                     left = []
+                outstanding[r['job']] -= 1
                 if left:
                     job = jobmap[r['job']]
                     # keep tasks large (a task restarts its solver): split only for idle workers
@@ -361,6 +380,7 @@ def run_check(prop, modname, jobs, tier, seed, level='model_checking', functions
                     nchunks = max(1, min(len(left), 1 + idle))
                     for i in range(nchunks):
                         submit(job, left[i::nchunks])
+    finished_jobs = {j for j, n in outstanding.items() if n == 0}
     wall = time.time() - t0
 
     # ---- verdict -------------------------------------------------------------
@@ -441,6 +461,10 @@ def run_check(prop, modname, jobs, tier, seed, level='model_checking', functions
     if incomplete:
         lines.append('INCONCLUSIVE: exploration not finished within %ss' % max_seconds)
         code = code or 2
+    if budget_cut:
+        lines.append('BUDGET: %d of %d jobs explored completely within the %d s budget of the thorough tier '
+                     '(VERIF_THOROUGH_BUDGET); every path reported was decided, the unfinished jobs are listed in the '
+                     'evidence and are not part of this run\'s claim' % (len(finished_jobs), len(jobs), budget_s))
     for l in lines:
         print(l)
 
@@ -449,7 +473,9 @@ def run_check(prop, modname, jobs, tier, seed, level='model_checking', functions
         'transitions': max(agg['checks'], 0),
         'traces_validated_against_impl': agg['xval'],
         'samples': agg['samples'] or ['(no path sample recorded)'],
-        'exhaustive': (code in (0, 1)) and not incomplete and not agg['inconclusive'],
+        'exhaustive': (code in (0, 1)) and not incomplete and not budget_cut and not agg['inconclusive'],
+        'jobs_finished': len(finished_jobs),
+        'jobs_not_finished_within_budget': sorted(j for j in jobmap if j not in finished_jobs)[:400] if budget_cut else [],
         'explanation': 'states = symbolic paths of the real code fully enumerated (fork on every '
                        'feasible branch, z3 decides feasibility); transitions = z3 queries discharged; '
                        'traces_validated = paths whose solver model was re-run concretely on the '
